@@ -233,6 +233,35 @@ theorem mulDec_none_iff (cs : Coins) (m : Int) (hs : Sorted cs) :
       have hp' : decMul c.2 m = some p := hp
       rw [e] at hp'; cases hp'
 
+/-! ### Intersect -/
+
+/-- `Intersect` of sets sorted by denomination: it succeeds only when the receiver's denominations are well formed;
+the result is sorted, holds no zero amount, has for every coin of the receiver the smaller of its amount and the
+argument's amount for that denomination, and nothing for any other denomination -/
+theorem intersect_spec (a b r : Coins) (ha : Sorted a) (hb : Sorted b) (h : DecCoins.intersect a b = some r) :
+    Sorted r ∧ (∀ x ∈ r, x.2 ≠ 0) ∧ DenomsOK a ∧
+      (∀ c ∈ a, amt r c.1 = DecCoins.minDec c.2 (amt b c.1)) ∧ (∀ d, (∀ c ∈ a, c.1 ≠ d) → amt r d = 0) := by
+  unfold DecCoins.intersect at h
+  simp only [Option.map_eq_some_iff] at h
+  obtain ⟨l, hl, rfl⟩ := h
+  obtain ⟨e, hok⟩ := DecCoins.intersectRaw_some a b l hb hl
+  have hsl : SortedL l := by rw [e]; exact DecCoins.sortedL_map_snd _ ha
+  refine ⟨sortedL_removeZero hsl, removeZero_nonzero _, hok, ?_, ?_⟩
+  · intro c hc
+    simp only [amt_eq]
+    rw [amtL_removeZero hsl]
+    have hm : (c.1, DecCoins.minDec c.2 (amtL b c.1)) ∈ l := by
+      rw [e]; exact List.mem_map.2 ⟨c, hc, rfl⟩
+    exact amtL_of_mem hsl hm
+  · intro d hd
+    simp only [amt_eq]
+    rw [amtL_removeZero hsl]
+    apply amtL_eq_zero
+    intro x hx
+    rw [e] at hx
+    obtain ⟨c, hc, rfl⟩ := List.mem_map.1 hx
+    exact hd c hc
+
 /-! ### TruncateDecimal -/
 
 theorem chopTrunc_zero : chopTrunc 0 = 0 := by simp [chopTrunc]
